@@ -50,7 +50,7 @@ def run(ctx):
         lops, _ = C03.gen_ops(ctx, scale)
         dis["lex"] = common.run_stream(ctx, "lex", lops[: 3000 * scale])
         dis["tok"] = common.run_stream(ctx, "tok", robust.tok_ops(ctx, 1500 * scale, bcs), cwd=wd)
-    robust.replay_findings(ctx, [])
+    regress = robust.replay_findings(ctx, [])
     n = ctx.pick(2500, 25000)
     texts, kinds = robust.gen_texts(ctx, n)
     texts += cyclic_programs(ctx, ctx.pick(60, 600))
@@ -66,7 +66,7 @@ def run(ctx):
         f2, _ = robust.sweep(ctx, more, flagsets, {"hang"}, "search")
         return f2
 
-    common.conclude(ctx, proof_ok, dis, failures, search)
+    common.conclude(ctx, proof_ok, dis, regress + failures, search)
     evidence(ctx)
 
 
